@@ -84,7 +84,39 @@ def plan(tier, seed):
     specs.append({"name": "lexer", "mode": "lexer", "rseed": seed, "n": 300 if tier == "quick" else 6000})
     specs.append({"name": "generator", "mode": "gen", "rseed": seed, "n": 300 if tier == "quick" else 6000})
     specs.append({"name": "stress", "mode": "stress", "n": 1500 if tier == "quick" else 6000})
+    specs.append({"name": "abandon", "mode": "abandon", "n": 700 if tier == "quick" else 5000, "rseed": seed})
     return specs
+
+
+# nesting constructs: (opening text, innermost text, closing text); a parse abandoned d levels inside one of them must
+# leave nothing behind (depth counters, scope stacks, token buffers) that a later deep but valid input can notice
+NESTS = [
+    ("int v = ", "(", "1", ")", ";"),
+    ("void f(void) ", "{", "", "}", ""),
+    ("void f(void) { x = ", "(", "1", ")", "; }"),
+    ("int a[] = ", "{", "1", "}", ";"),
+    ("int v = ", "f(", "1", ")", ";"),
+    ("int v = ", "a[", "0", "]", ";"),
+    ("int v = ", "-(", "1", ")", ";"),
+    ("int v = ", "(int)(", "1", ")", ";"),
+    ("int v = ", "sizeof(", "1", ")", ";"),
+    ("int ", "(*", "p", ")", ";"),
+    ("struct s0 { int a; ", "struct { int b; ", "", "} ;", " };"),
+    ("void f(void) { ", "if (c) { ", ";", " }", " }"),
+    ("void f(void) { ", "for (;;) while (c) { ", ";", " }", " }"),
+    ("void f(void) { ", "switch (c) { case 1: ", "break;", " }", " }"),
+    ("int v = ", "c ? (", "1", ") : 2", ";"),
+    ("void f(int (*cb)", "(int (*x)", "(void)", ")", ");"),
+    ("void f(void) { ", "{ typedef int T; { T t; ", "", "} }", " }"),
+]
+BREAKERS = [" + ; ", " @ ", " ) ", " } ", " ] ", " int ", " \"x ", " 08 ", ""]
+
+
+def nest_text(ni, depth, breaker=None):
+    pre, op, mid, cl, post = NESTS[ni]
+    if breaker is None:
+        return pre + op * depth + mid + cl * depth + post
+    return pre + op * depth + mid + breaker      # abandoned at the innermost point
 
 
 def _outcome(parser, text, fname):
@@ -269,6 +301,30 @@ def run_shard(spec):
         res["nontrivial_distinct"] += len(hist) - 1
         res["violations"].extend(vs)
         res["samples"].append({"stress_history_calls": len(hist)})
+    elif spec["mode"] == "abandon":
+        rnd = random.Random(spec["rseed"] + 77)
+        hist = []
+        leaked = 0
+        for i in range(spec["n"]):
+            ni = rnd.randrange(len(NESTS))
+            if i % 2 == 0:
+                d = rnd.choice([1, 2, 4, 7, 12, 20, 35])
+                leaked += d
+                hist.append([nest_text(ni, d, rnd.choice(BREAKERS)), fnames[i % 3 == 0]])
+            else:
+                hist.append([nest_text(ni, rnd.choice([1, 3, 10, 30, 60, 90])), fnames[i % 3 == 0]])
+        # several instances, each with a long life: one history per 100 calls plus the whole history on one instance
+        for h in [hist] + [hist[k:k + 100] for k in range(0, len(hist), 100)]:
+            vs = eval_history(h, fresh)
+            res["evaluations"] += len(h)
+            res["nontrivial_distinct"] += len(h) - 1
+            cnt["calls"] += len(h)
+            if vs and len(res["violations"]) < 50:
+                res["violations"].extend(vs)
+        cnt["abandoned_nesting_levels"] = leaked
+        cnt["abandon_valid_ok"] = sum(1 for (t, f), k in fresh.items() if k[0] == "ok")
+        cnt["abandon_failed"] = sum(1 for (t, f), k in fresh.items() if k[0] != "ok")
+        res["samples"].append({"abandoned": hist[0][0][:100], "then": hist[1][0][:100]})
     elif spec["mode"] == "lexer":
         rnd = random.Random(spec["rseed"] + 5)
         hs = set()
